@@ -72,6 +72,10 @@ fn main() {
             std::process::exit(engine::supervisor::replay_file(&prop, &file, &verif_dir()));
         }
         "worker" => worker(&args, &prop, tier, seed),
+        "eval" => {
+            engine::install_panic_hook();
+            props::c02::eval_main();
+        }
         _ => {
             eprintln!("bv: unknown command {}", cmd);
             std::process::exit(2);
